@@ -421,15 +421,20 @@ def mapspec_dimensions(mapspecs: list[MapSpec]) -> dict[str, int]:
     }
 
 
-def mapspec_axes(mapspecs: list[MapSpec]) -> dict[str, tuple[str, ...]]:
-    """Return the axes for each array parameter in the pipeline."""
+def mapspec_axes(mapspecs: list[MapSpec]) -> dict[str, tuple[str | None, ...]]:
+    """Return the axes for each array parameter in the pipeline.
+
+    The tuple is positional: an axis that is only ever sliced (``:``) is ``None``.
+    """
     axes: dict[str, dict[int, str]] = defaultdict(dict)
+    ndim: dict[str, int] = {}
     for mapspec in mapspecs:
         for arrayspec in itertools.chain(mapspec.inputs, mapspec.outputs):
+            ndim[arrayspec.name] = max(ndim.get(arrayspec.name, 0), len(arrayspec.axes))
             for i, axis in enumerate(arrayspec.axes):
                 if axis is not None:
                     axes[arrayspec.name][i] = axis
-    return {name: tuple(dct[i] for i in range(len(dct))) for name, dct in axes.items()}
+    return {name: tuple(axes[name].get(i) for i in range(n)) for name, n in ndim.items()}
 
 
 def _validate_shapes(
